@@ -46,7 +46,7 @@ def _leaf_attrs(r, swarm):
     if swarm['updaters']:
         kinds += ['null', 'nonneg', 'nonneg', 'merge', 'merge', 'dict_value', 'affine', 'acc_nd', 'nonneg_nd']
     if swarm.get('units'):
-        kinds += ['qty'] * 4 + ['ser_int'] * 2 + ['ser_qty']
+        kinds += ['qty'] * 4 + ['ser_int'] * 2 + ['ser_qty', 'qty_list']
     kind = r.pick(kinds)
     a = {'kind': kind, 'emit': r.chance(70)}
     if kind == 'acc_int':
@@ -62,6 +62,12 @@ def _leaf_attrs(r, swarm):
         a.update(updater=None, default=r.rint(0, 50), serializer='verif_ser_tag')
     elif kind == 'nonneg_nd':
         a.update(updater='nonnegative_accumulate', default={'__nd__': [r.rint(0, 9), r.rint(0, 9)]})
+    elif kind == 'qty_list':
+        # a list of quantities given in a unit other than the declared one; never written,
+        # so that rows show what emit makes of the initial value
+        du, ou = r.pick([('mg', 'g'), ('um', 'mm'), ('mm', 'mm')])
+        a.update(updater='set', units=du, emit=True,
+                 default=[{'__q__': [r.rint(1, 16) * 0.5, ou]} for _ in range(r.rint(1, 3))])
     elif kind == 'ser_qty':
         # a quantity (its unit: that of the default) with a custom serializer of its own
         du = r.pick(['mm', 'mg'])
@@ -140,7 +146,9 @@ def _vals_for(r, a, pname, swarm):
                         {'h': {'m': {'o': r.rint(0, 9)}, 'i': {'j': r.rint(0, 9)}}}])
         elif kind == 'dict_value':
             v = r.pick([{'_add': [{'key': 'k_%s_%d' % (pname, i), 'state': {'n': r.rint(0, 9)}}]},
-                        {'k0': {'n': r.rint(0, 9), 'm': 1}}, {'k0': {}}])
+                        {'k0': {'n': r.rint(0, 9), 'm': 1}}, {'k0': {}},
+                        # a record replaced within one update: entries act in the order given
+                        {'_delete': ['k0'], '_add': [{'key': 'k0', 'state': {'n': r.rint(10, 19)}}]}])
         elif kind == 'affine':
             v = r.rint(0, 3)
         out.append(v)
@@ -331,7 +339,7 @@ def gen_case(seed):
                 else:
                     attrs = pool[tgt]
                     used.add(tgt)
-                if r.chance(70):
+                if attrs['kind'] != 'qty_list' and r.chance(70):
                     sp = ['@%d' % r.below(3) if s == '@' else s for s in spath]
                     w_ = {'path': sp, 'vals': _vals_for(r, attrs, name, swarm),
                           'mask': [1 if r.chance(70) else 0 for _ in range(r.rint(1, 4))]}
@@ -1005,6 +1013,10 @@ def _flat_eq(a, b):
 
 
 def _emit_equal(got, exp, units=None):
+    if isinstance(exp, list) and exp and all(wmodel._is_qty(x) for x in exp):
+        # a list of quantities: every element through the quantity serializer, in the declared units
+        return isinstance(got, list) and len(got) == len(exp) and all(
+            _emit_equal(g, x, units) for g, x in zip(got, exp))
     if wmodel._is_qty(exp):
         # emitted through the quantity serializer, in the declared units
         want = exp.to(units) if units else exp
